@@ -279,9 +279,11 @@ theorem sqfsCopy_view (D : Kind → CopyDesc) (hD : ∀ k, WfDesc (D k)) (n : Na
     | none => rw [hx'] at hso; simp at hso
     | some o' =>
       rw [hx'] at hso
-      simp only [Option.map_some, Option.some.injEq, Obj.slots, Prod.mk.injEq] at hso
+      simp only [Option.map_some, Option.some.injEq] at hso
+      have e1 : o'.bufs = o.bufs := (congrArg Obj.bufs hso : o'.erase.bufs = o.erase.bufs)
+      have e2 : o'.views = o.views := (congrArg Obj.views hso : o'.erase.views = o.erase.views)
       unfold view
-      simp only [hx', hox, Option.map_some, Option.some.injEq, hso.1, hso.2]
+      simp only [hx', hox, Option.map_some, Option.some.injEq, e1, e2]
       apply List.map_congr_left
       intro s hs
       exact slotVal_congr s (fun b hsb => hsl.bufsOld b (hslot s hs b hsb))
